@@ -156,7 +156,7 @@ theorem zRemove_sublist (m : BS) (z : ZL) : (zRemove m z).Sublist z := by
     simp only [zRemove]
     split
     · exact List.sublist_cons_self _ _
-    · exact List.Sublist.cons₂ _ ih
+    · exact List.Sublist.cons_cons _ ih
 
 theorem canon_zRemove {m : BS} {z : ZL} (hc : ZCanon z) : ZCanon (zRemove m z) :=
   ⟨List.Pairwise.sublist (zRemove_sublist m z) hc.1, List.Pairwise.sublist (zRemove_sublist m z) hc.2⟩
